@@ -714,7 +714,20 @@ fn run_parse(query: &str) -> R<String> {
     })
 }
 
+/// All cases run on one worker thread with a fixed 8 MiB stack (the default size of a main thread on Linux), so that
+/// what a deep query does to the stack does not depend on the `ulimit -s` of the environment the check runs in.
 fn main() {
+    let worker = std::thread::Builder::new()
+        .name("cases".into())
+        .stack_size(8 << 20)
+        .spawn(main_loop)
+        .expect("spawn worker");
+    if worker.join().is_err() {
+        std::process::abort();
+    }
+}
+
+fn main_loop() {
     std::panic::set_hook(Box::new(|_| {}));
     let stdin = io::stdin();
     let stdout = io::stdout();
